@@ -574,6 +574,60 @@ def run(chk):
     if seen_red != set(DOC_RED):
         raise core.AnalysisBroken("UDQ scalar functions not found: %s" % sorted(set(DOC_RED) - seen_red))
 
+    # ---- C17.cmp: comparisons with relative tolerance and the union operators
+    r_cm = chk.rule("C17.cmp", "UDQ comparison functions work on d = lhs - rhs element by element over the whole set, touch defined elements only, and decide: GT d > 0, LT d < 0, LE / GE / EQ are true for d = 0 and otherwise not(d/lhs > eps) / not(d/lhs < -eps) / not(|d/lhs| > eps), NE = 1 - EQ; the union operators UADD/UMUL/UMIN/UMAX start from the union and combine with + / * / min / max exactly where BOTH operands are defined", floor=10)
+    bfun = {f["n"]: f for f in fx.fns if f.get("cls") == "Opm::UDQBinaryFunction" and f.get("body") and f["file"].endswith("UDQFunction.cpp")}
+
+    def full_loop(f, over):
+        lps = [n for n in stmt_list(f["body"]) if n["k"] == "For"]
+        if len(lps) != 1:
+            return None
+        lp = lps[0]
+        iv = [(v["n"], strip(v.get("init") or {}).get("v")) for d in walk(lp.get("init") or {}) if d["k"] == "Decl" for v in d["vars"]]
+        cnd = show(strip(lp["cond"])).replace(" ", "")
+        ok = len(iv) == 1 and iv[0][1] == 0 and cnd == "(%s<%s.size())" % (iv[0][0], over) and "++" in show(lp.get("inc") or {})
+        return lp if ok else False
+    WANT_C = {"GT": "(elm.get() > 0)", "LT": "(elm.get() < 0)",
+              "LE": "(!(rel_diff[index].get() > eps))", "GE": "(!(rel_diff[index].get() < (-eps)))", "EQ": "(!(fabs(rel_diff[index].get()) > eps))"}
+    for nm_, want in WANT_C.items():
+        f = bfun.get(nm_)
+        if f is None:
+            raise core.AnalysisBroken("UDQBinaryFunction::%s not found" % nm_)
+        decl = {v["n"]: show(strip(v.get("init") or {})).replace("Opm::", "") for n in stmt_list(f["body"]) if n["k"] == "Decl" for v in n["vars"]}
+        lp = full_loop(f, "result")
+        assigns = [show(strip(x["a"][1])).replace("std::", "") for x in walk(f["body"]) if x["k"] == "MCall" and x.get("m") == "assign" and len(x.get("a") or []) == 2]
+        guards = [re.sub(r"\.operator \w+\(\)", "", show(strip(n["cond"]))) for n in walk(f["body"]) if n["k"] == "If"]
+        ok = lp not in (None, False) and decl.get("result") in ("(lhs - rhs)", "operator-(lhs, rhs)") and "elm" in guards
+        if nm_ in ("GT", "LT"):
+            ok = ok and assigns == [want]
+        else:
+            ok = ok and decl.get("rel_diff") in ("(result / lhs)", "operator/(result, lhs)") and assigns == ["1", want] and any(g.replace(" ", "") in ("(abs_diff==0)", "(abs_diff==0.0)") for g in guards)
+        chk.instance(r_cm, nm_, sample=dict(function=nm_, difference=decl.get("result"), relative=decl.get("rel_diff"), decisions=assigns, guards=guards, whole_set=lp not in (None, False)))
+        if not ok:
+            chk.violation(r_cm, nm_, "UDQBinaryFunction::%s: expected d = lhs - rhs%s, a loop over every index of the result, defined elements only, and the decision %s; found d = %s, rel = %s, decisions %s, guards %s" % (nm_, "" if nm_ in ("GT", "LT") else ", rel = d / lhs, 1 for d == 0", want, decl.get("result"), decl.get("rel_diff"), assigns, guards), f["file"], f["l"])
+    ne = bfun.get("NE")
+    if ne is None:
+        raise core.AnalysisBroken("UDQBinaryFunction::NE not found")
+    decl = {v["n"]: show(strip(v.get("init") or {})) for n in stmt_list(ne["body"]) if n["k"] == "Decl" for v in n["vars"]}
+    assigns = [show(strip(x["a"][1])) for x in walk(ne["body"]) if x["k"] == "MCall" and x.get("m") == "assign" and len(x.get("a") or []) == 2]
+    okn = "EQ(eps, lhs, rhs)" in (decl.get("result") or "") and assigns == ["(1 - elm.get())"] and full_loop(ne, "result") not in (None, False)
+    chk.instance(r_cm, "NE", sample=dict(starts_from=decl.get("result"), decisions=assigns))
+    if not okn:
+        chk.violation(r_cm, "NE", "UDQBinaryFunction::NE must be 1 - EQ(eps, lhs, rhs) on every defined element (found start %s, decisions %s)" % (decl.get("result"), assigns), ne["file"], ne["l"])
+    for nm_, comb in (("UADD", "(rhs_elm.get() + lhs_elm.get())"), ("UMUL", "(rhs_elm.get() * lhs_elm.get())"), ("UMIN", "min(rhs_elm.get(), lhs_elm.get())"), ("UMAX", "max(rhs_elm.get(), lhs_elm.get())")):
+        f = bfun.get(nm_)
+        if f is None:
+            raise core.AnalysisBroken("UDQBinaryFunction::%s not found" % nm_)
+        decl = {v["n"]: show(strip(v.get("init") or {})) for n in walk(f["body"]) if n["k"] == "Decl" for v in n["vars"]}
+        assigns = [show(strip(x["a"][1])).replace("std::", "") for x in walk(f["body"]) if x["k"] == "MCall" and x.get("m") == "assign" and len(x.get("a") or []) == 2]
+        guards = [re.sub(r"\.operator \w+\(\)", "", show(strip(n["cond"]))).replace(" ", "") for n in walk(f["body"]) if n["k"] == "If"]
+        alt = comb.replace("rhs_elm.get() + lhs_elm.get()", "lhs_elm.get() + rhs_elm.get()").replace("rhs_elm.get() * lhs_elm.get()", "lhs_elm.get() * rhs_elm.get()").replace("(rhs_elm.get(), lhs_elm.get())", "(lhs_elm.get(), rhs_elm.get())")
+        ok = "udq_union(lhs, rhs)" in (decl.get("result") or "") and assigns in ([comb], [alt]) and guards in (["(lhs_elm&&rhs_elm)"], ["(rhs_elm&&lhs_elm)"]) and full_loop(f, "lhs") not in (None, False) \
+            and decl.get("lhs_elm") == "lhs[index]" and decl.get("rhs_elm") == "rhs[index]"
+        chk.instance(r_cm, nm_, sample=dict(function=nm_, start=decl.get("result"), combine=assigns, where=guards))
+        if not ok:
+            chk.violation(r_cm, nm_, "UDQBinaryFunction::%s must start from udq_union(lhs, rhs) and store %s exactly where both lhs[index] and rhs[index] are defined, for every index (found start %s, combine %s, where %s)" % (nm_, comb, decl.get("result"), assigns, guards), f["file"], f["l"])
+
     # ---- C17.sign: the sign a node carries
     r_sg = chk.rule("C17.sign", "UDQASTNode: the sign of a (sub)expression is applied exactly once to whatever the node evaluates to (every evaluating return of eval() is sign * eval_xxx(...)), and a further sign factor is multiplied into the one already carried (scale: sign *= factor), never stored over it - so that -(-X) = X and (-X) = -X", floor=6)
     ax = chk.facts(["opm/input/eclipse/Schedule/UDQ/UDQASTNode.cpp"])
